@@ -95,7 +95,11 @@ func Orchestrate(id, tier string) int {
 		fmt.Fprintln(os.Stderr, "harness: mktemp:", err)
 		return 2
 	}
-	defer os.RemoveAll(scratch)
+	if os.Getenv("VERIF_KEEP_SCRATCH") == "" {
+		defer os.RemoveAll(scratch)
+	} else {
+		fmt.Fprintln(os.Stderr, "harness: keeping", scratch)
+	}
 
 	outcomes := make([]shardOutcome, plan.Shards)
 	sem := make(chan struct{}, plan.Parallel)
